@@ -282,12 +282,13 @@ def finishLink (rE : Root) (deps : List Id) (cur : Id) (eq : EqKind) (cl : Closu
     if changed then markDependentsDirty r cur else r
 
 /-- `runNodeUpdate`, given the results of its unlink / dispose / run phases -/
-theorem runNodeUpdate_unfold {f : Nat} {r rA rC rD : Root} {cur : Id} {n nA : Node} {eq : EqKind}
+theorem runNodeUpdate_unfold {f : Nat} {r rA rC rD : Root} {cur : Id} {n nA nC : Node} {eq : EqKind}
     {cl : Closure} {old new : Int} {obs : List Obs}
     (hn : r.get? cur = some n)
     (hU : unlink cur (r.setNode cur { n with dependencies := [] }) n.dependencies = .ok rA)
     (hnA : rA.get? cur = some nA) (hcb : nA.callback = some (eq, cl)) (hv : nA.value = some old)
     (hdC : disposeChildren f (rA.setNode cur { nA with callback := none, value := none }) cur = .ok rC)
+    (hnC : rC.get? cur = some nC)
     (hrun : runClosure f { rC with current := some cur, tracker := some [] } cl = .ok (rD, new, obs)) :
     runNodeUpdate (f + 1) r cur =
       .ok (finishLink { rD with tracker := rC.tracker, current := rC.current,
@@ -299,7 +300,9 @@ theorem runNodeUpdate_unfold {f : Nat} {r rA rC rD : Root} {cur : Id} {n nA : No
   · rename_i h; rw [hv] at h; cases h
   · rename_i eq' cl' old' h1 h2
     rw [hcb] at h1; rw [hv] at h2; cases h1; cases h2
-    simp only [hdC, hrun, finishLink]
+    -- the node is still alive after its (empty) cleanups ran: the D22 guard is not taken
+    have hlive : ¬ rC.get? cur = none := by rw [hnC]; simp
+    simp only [hdC, hlive, if_false, hrun, finishLink]
     split <;> rename_i hx <;> simp only [hx]
 
 /-- put callback and value back, clear the dirty flag -/
@@ -478,7 +481,7 @@ theorem runNodeUpdate_static {fuel : Nat} {r : Root} {cur : Id} {n : Node} {eq :
   have hdC' : disposeChildren f (rA.setNode cur { unlinked cur cur n with callback := none, value := none }) cur
       = .ok rC := by rw [hrB, hnBdef] at hdC; exact hdC
   have hrn := runNodeUpdate_unfold hn hU hnA (by simpa [unlinked] using hcb) (by simpa [unlinked] using hv)
-    hdC' hrun
+    hdC' hnC hrun
   -- E/F: link and restore
   obtain ⟨rE, hrE⟩ : ∃ rE : Root, rE =
       { rC with trace := rC.trace ++ [.run cur (bodyObs r cl.env cl.body) new] } := ⟨_, rfl⟩
